@@ -8,6 +8,7 @@ import DarkluaModel.C06.CompoundWhole
 import DarkluaModel.C06.InterpFormat
 import DarkluaModel.C06.CompoundGuard
 import DarkluaModel.Rules.RemoveContinuePost
+import DarkluaModel.C06.ContinueWhole
 /-!
 # C06 — the Luau-lowering rules preserve program behaviour: property theorems (local lemmas)
 
@@ -796,14 +797,6 @@ example : okB Compound.cGuard compoundSample := by
   refine ⟨⟨rfl, rfl, fun n hn => ?_⟩, rfl, rfl, fun n hn => ?_, fun _ => rfl⟩ <;>
     simp [Expr.refsT, Expr.refs, Expr.refsList, (key n hn).1, (key n hn).2.1, (key n hn).2.2]
 
-/-- `remove_continue` on programs without `repeat` loops (F9 is about `repeat`): flag + inner
-`repeat … until true` + conditional `break`, for `while` / numeric `for` / generic `for`, bodies that
-also `break` or `return` included. -/
-def continue_refines_partial : Prop :=
-  ∀ (b : Block) (N : NumOps) (ρ : ExtOracle N) (n : Nat) (externs : List String), wfB b = true →
-    C07.continueInLoops b = true → noRepeatB false b = true →
-    runProgram ρ n externs (RemoveContinue.apply b) = runProgram ρ n externs b
-
 /-- the two Lean models of `remove_continue` — hook by hook (`Rules/RemoveContinue.lean`, what the census
 theorems of C07 are about) and loop by loop (`Rules/RemoveContinuePost.lean`, what the behaviour theorem is
 about) — produce the same tree where every `continue` is inside a loop of its function, no `repeat` loop
@@ -822,6 +815,42 @@ example : RemoveContinue.apply
   RemoveContinuePost.apply
     (.mk [.while_ (.var "c") (.mk [.ifs [(.var "a", .mk [] (some .cont))] none,
       .callStmt (.call (.var "f") none .tuple [])] none)] none) := rfl
+
+/-- **`remove_continue` as a whole, on the loop-by-loop model**: same observable outcome (returned values,
+raised error, external-call trace) for EVERY program, every number system / oracle / call budget. Each
+`while` / numeric `for` / generic `for` loop whose body owns a `continue` gets
+`local flag = false; repeat <body, continue ↦ flag = true; break> [; flag = true] until true; if not flag then break end`
+(the shared stage-3 leaf `Sem.Heap.LkS.removeContinueWhile/Nfor/Gfor`: the flag is a local of the lowered
+side only that is WRITTEN after other code has run — a pinned right cell — and the wrapped body answers
+`next` where the original answers `continue`); `repeat` loops are left alone by this model (F9). -/
+theorem continue_post_refines (b : Block) (ρ : ExtOracle N) (n : Nat) (externs : List String) :
+    runProgram ρ n externs (RemoveContinuePost.apply b) = runProgram ρ n externs b :=
+  Continue.post_refines b ρ n externs
+
+-- non-vacuity: the loop of the example above is really rewritten
+example : RemoveContinuePost.apply
+    (.mk [.while_ (.var "c") (.mk [.ifs [(.var "a", .mk [] (some .cont))] none,
+      .callStmt (.call (.var "f") none .tuple [])] none)] none) =
+  .mk [.while_ (.var "c") (.mk
+    [.localAssign .loc [.mk "__DARKLUA_CONTINUE_1" none] [.false],
+     .repeat_ (.mk [.ifs [(.var "a", .mk [.assign [.var "__DARKLUA_CONTINUE_1"] [.true]] (some .brk))] none,
+                    .callStmt (.call (.var "f") none .tuple []),
+                    .assign [.var "__DARKLUA_CONTINUE_1"] [.true]] none) .true,
+     .ifs [(.un .not (.var "__DARKLUA_CONTINUE_1"), .mk [] (some .brk))] none] none)] none := rfl
+
+/-- the claim for the hook-by-hook model (the one tied to the Rust hook by hook): same observable outcome
+where every `continue` is inside a loop of its function, no `repeat` loop owns a `continue` (F9) and no
+identifier is a flag name -/
+def continue_refines_partial : Prop :=
+  ∀ (b : Block) (N : NumOps) (ρ : ExtOracle N) (n : Nat) (externs : List String),
+    C07.continueInLoops b = true → RemoveContinuePost.nrcB b = true →
+    (∀ k, b.refs (.ref (RemoveContinue.identifier k)) = false ∧ b.refs (.wat (RemoveContinue.identifier k)) = false) →
+    runProgram ρ n externs (RemoveContinue.apply b) = runProgram ρ n externs b
+
+/-- … follows from `continue_post_refines` as soon as the two models agree (`continue_models_agree`, checked
+by the harness against the real rule, not proved in Lean) -/
+theorem continue_refines_partial_of_agree (h : continue_models_agree) : continue_refines_partial :=
+  fun b _ ρ n externs h1 h2 h3 => by rw [h b h1 h2 h3]; exact Continue.post_refines b ρ n externs
 
 /-- **`remove_types` as a whole** preserves the observable outcome (returned values, raised error,
 external-call trace) of EVERY program. Every hook is locally sound: the expression hook and the block
